@@ -113,6 +113,12 @@ static void fm_case(void) {
     if (i == 0 && chance(15)) { static const long s2[] = { -2, 0, 1 }; lp_upolynomial_t* f = lp_upolynomial_construct_from_long(lp_Z, 2, s2);
       lp_algebraic_number_t r[2]; size_t n = 0; lp_upolynomial_roots_isolate(f, r, &n); lp_value_construct(&v[i], LP_VALUE_ALGEBRAIC, &r[rnd(2)]);
       lp_algebraic_number_destruct(&r[0]); lp_algebraic_number_destruct(&r[1]); lp_upolynomial_delete(f); }
+    else if (i != 2 && chance(18)) {      /* a non-dyadic rational as root isolation returns it: <3x - a, non-point interval> */
+      long a = rnd_in(-5, 5); if (a % 3 == 0) a += 1;
+      long c3[2] = { -a, 3 }; lp_upolynomial_t* f = lp_upolynomial_construct_from_long(lp_Z, 1, c3);
+      lp_algebraic_number_t r[1]; size_t n = 0; lp_upolynomial_roots_isolate(f, r, &n);
+      lp_value_construct(&v[i], LP_VALUE_ALGEBRAIC, &r[0]);
+      lp_algebraic_number_destruct(&r[0]); lp_upolynomial_delete(f); }
     else lp_value_construct(&v[i], LP_VALUE_RATIONAL, &q);
     lp_rational_destruct(&q);
     lp_assignment_set_value(M, hp_x[i], &v[i]);
